@@ -62,7 +62,7 @@ type Doc struct {
 }
 
 var words = []string{"", "a", "ab", "abc", "foo", "bar", "baz", "foobar", "web-1", "web-2", "db", "10.0.0.1", "x y", "Ünï", "true", "42", "red", "blue"}
-var keyWords = []string{"a", "b", "c", "foo", "bar", "x", "name", "tags", "meta", "n", "k1", "k2", "k3", "co:lon", "with space", "ünï", "0"}
+var keyWords = []string{"a", "b", "c", "foo", "bar", "x", "name", "tags", "meta", "n", "k1", "k2", "k3", "co:lon", "with space", "ünï", "0", "Name", "NAME", "Foo", "FOO", "Env", "ENV", "env"}
 
 // DatumGens lists the constructors for Evaluate data.
 var DatumGens = []string{"doc", "docptr", "json", "jsonnum", "tmap:int", "tmap:slice", "tmap:map", "tmap:ptr", "tmap:any", "tmap:inner", "tmap:ikey", "tmap:nkey", "longlist", "nil", "scalar"}
@@ -588,6 +588,7 @@ func genMixed(spec string) interface{} {
 // for the filter families, the filter expression evaluated on each element.
 var MixedFamilies = map[string]string{
 	"eq":      `v == 1`,
+	"fold":    `v.env == "prod"`,
 	"ieq":     `v == 1`,
 	"neq":     `v == 1`,
 	"path":    `v.x == 1`,
@@ -615,6 +616,20 @@ func MixedElem(fam string, c byte, j int) interface{} {
 				return []int{1}
 			}
 			return map[string]interface{}{"z": 1}
+		}
+	case "fold":
+		// keys that differ only in case, none spelled like the selector: a
+		// lenient (case-folding, prefix, trimmed) key match would have to choose
+		switch c {
+		case 'T':
+			return map[string]interface{}{"Env": "prod", "ENV": "prod", "zz": j}
+		case 'F':
+			return map[string]interface{}{"Env": "dev", "ENV": "dev"}
+		default:
+			if j%2 == 0 {
+				return map[string]interface{}{"Env": "prod", "ENV": 7}
+			}
+			return map[string]interface{}{"Env": "dev", "ENV": "prod", "eNV": 7}
 		}
 	case "path", "filter":
 		switch c {
